@@ -113,6 +113,7 @@ def tlc(scratch, spec, cfg, workers=None, timeout=600, env_extra=None, extra=Non
     res["violated"] = re.findall(r"Error: Invariant (\S+) is violated", out) + \
         re.findall(r"Error: Temporal properties were violated", out) + \
         re.findall(r"Error: Temporal property (\S+) was violated", out) + \
+        re.findall(r"Error: The invariant of (\S+) is equal to FALSE", out) + \
         re.findall(r"Error: Action property (\S+)", out) + \
         (["deadlock"] if "Error: Deadlock reached" in out else [])
     res["timeout"] = rc == 124
